@@ -5,7 +5,7 @@
 
 static const char* OPN[] = {"new_int", "new_float", "new_ctrl", "new_bstr", "new_tstr", "new_indef_bstr", "new_indef_tstr", "new_def_array", "new_indef_array", "new_def_map", "new_indef_map", "new_tag", "build_tag",
                             "push", "push_many", "set", "replace", "get", "map_add", "add_chunk", "tag_set", "tag_item", "copy", "load", "load_raw", "serialize_alloc", "serialize", "size", "describe",
-                            "incref", "decref", "intermediate_decref", "setval", "mark", "getters", "reset_handle"};
+                            "incref", "decref", "intermediate_decref", "setval", "mark", "getters", "reset_handle", "big"};
 const char* op_name(int c) { return (c >= 0 && c < OP__COUNT) ? OPN[c] : "?"; }
 HOp hop_from_json(const J& j) { HOp o; o.code = (int)j.iu(0); o.a = j.iu(1); o.b = j.iu(2); o.c = j.iu(3); o.d = j.iu(4); o.fk = (int)j.iu(5); o.fkk = j.iu(6); return o; }
 J hop_to_json(const HOp& o) { J a = J::arr(); a.push((uint64_t)o.code); a.push(o.a); a.push(o.b); a.push(o.c); a.push(o.d); a.push((uint64_t)o.fk); a.push(o.fkk); return a; }
@@ -712,6 +712,75 @@ OpResult Hist::run_op(const HOp& op0) {
       S.end(); R.executed = true;
       n.bytes.resize(nl); if (nl) n.bytes[nl - 1] = (uint8_t)(0x41 + op.b % 26);
       S.account();
+      break;
+    }
+    case OP_BIG: {
+      // self-contained marathons on one very large flat container (built and released inside the op; the model is not involved):
+      //  a%4 = 0/1/2: growth of an indefinite array / map / chunked string over hundreds of thousands to millions of insertions
+      //  a%4 = 3    : decode -> compare -> serialise -> release of a definite or indefinite array/map with a member count around 2^16, 2^18, 2^19
+      unsigned variant = (unsigned)(op.a % 4);
+      uint64_t saved_max = sa_knobs().max_request; sa_set_max_request((uint64_t)256 << 20);
+      uint64_t sig_before = sa_live_sig();
+      OpScope S(*this, op, variant == 3 ? "C03" : "C12");
+      if (variant < 3) {
+        static const uint64_t NS[] = {262145, 300000, 524289, 1000000, 1048577, 2097153};
+        uint64_t n = NS[op.c % 6]; if (variant == 1 && n > 1048577) n = 1048577;
+        cbor_item_t* c = variant == 0 ? cbor_new_indefinite_array() : variant == 1 ? cbor_new_indefinite_map() : cbor_new_indefinite_bytestring();
+        cbor_item_t* e = variant == 2 ? cbor_build_bytestring((const unsigned char*)"x", 1) : cbor_build_uint8(7);
+        if (c && e) {
+          sa_begin(FaultSpec()); uint64_t done = 0; bool ok = true;
+          for (uint64_t i = 0; i < n && ok; i++) {
+            if (variant == 0) ok = cbor_array_push(c, e);
+            else if (variant == 1) { struct cbor_pair pr; pr.key = e; pr.value = e; ok = cbor_map_add(c, pr); }
+            else ok = cbor_bytestring_add_chunk(c, e);
+            if (ok) done++;
+          }
+          OpWindow w = sa_end(); R.executed = true; R.requests = w.requests;
+          double G = impl_growth(); uint64_t budget = (uint64_t)std::ceil(std::log((double)n) / std::log(G) - 1e-9) + 2;
+          if (!ok || done != n) fail("C12", "insert-refused-wrongly", S.ctx + fmt(": insertion %llu of %llu into an indefinite container was refused although no allocation was", (unsigned long long)done, (unsigned long long)n));
+          else if (w.reallocs > budget) fail("C12", "growth-not-geometric", S.ctx + fmt(": %llu reallocations for %llu insertions (budget %llu)", (unsigned long long)w.reallocs, (unsigned long long)n, (unsigned long long)budget));
+          else {
+            size_t sz = variant == 0 ? cbor_array_size(c) : variant == 1 ? cbor_map_size(c) : cbor_bytestring_chunk_count(c);
+            size_t al = variant == 0 ? cbor_array_allocated(c) : variant == 1 ? cbor_map_allocated(c) : sz;
+            if (sz != n || sz > al) fail("C12", "model-divergence", S.ctx + fmt(": size %zu allocated %zu after %llu insertions", sz, al, (unsigned long long)n));
+            if (cbor_refcount(e) != 1 + n * (variant == 1 ? 2 : 1)) fail("C04,C12", "refcount-differs-from-ownership-rules", S.ctx + fmt(": element refcount %zu after %llu insertions", cbor_refcount(e), (unsigned long long)n));
+          }
+          stat_add("marathon_growth"); stat_max("max_marathon_insertions", n);
+        }
+        if (c) cbor_decref(&c);
+        if (e) cbor_decref(&e);
+      } else {
+        static const uint64_t NS[] = {65535, 65536, 65537, 262143, 262144, 262145, 300000, 524288, 524289};
+        uint64_t n = NS[op.c % 9]; unsigned shape = (unsigned)(op.b % 4);   // 0 definite array, 1 definite map, 2 indefinite array, 3 indefinite map
+        if (shape % 2 == 1 && n > 300000) n = 262145;
+        std::vector<uint8_t> by;
+        if (shape == 0) ref_head(4, n, by); else if (shape == 1) ref_head(5, n, by); else by.push_back(shape == 2 ? 0x9f : 0xbf);
+        uint64_t members = (shape % 2 == 1) ? 2 * n : n;
+        for (uint64_t i = 0; i < members; i++) by.push_back((uint8_t)(i % 24));
+        if (shape >= 2) by.push_back(0xff);
+        unsigned char* buf = (unsigned char*)malloc(by.size()); memcpy(buf, by.data(), by.size());
+        struct cbor_load_result res; memset(&res, 0xA5, sizeof res);
+        sa_begin(FaultSpec()); cbor_item_t* it = cbor_load(buf, by.size(), &res); sa_end(); R.executed = true;
+        memset(buf, 0x5A, by.size()); free(buf);
+        if (!it) fail("C03", "own-encoding-rejected", S.ctx + fmt(": cbor_load rejected a well-formed %s of %llu members (code %d at %zu)", shape % 2 ? "map" : "array", (unsigned long long)n, (int)res.error.code, res.error.position));
+        else {
+          size_t sz = shape % 2 ? (cbor_isa_map(it) ? cbor_map_size(it) : 0) : (cbor_isa_array(it) ? cbor_array_size(it) : 0);
+          if (res.read != by.size() || sz != n) fail("C03", "roundtrip-tree-differs", S.ctx + fmt(": %s of %llu members decoded with read=%zu of %zu, size %zu", shape % 2 ? "map" : "array", (unsigned long long)n, res.read, by.size(), sz));
+          else {
+            bool same = true;
+            if (shape % 2 == 0) { cbor_item_t** h = cbor_array_handle(it); for (uint64_t i = 0; i < n && same; i++) same = h[i] && cbor_isa_uint(h[i]) && cbor_get_int(h[i]) == i % 24; }
+            else { struct cbor_pair* h = cbor_map_handle(it); for (uint64_t i = 0; i < n && same; i++) same = h[i].key && h[i].value && cbor_get_int(h[i].key) == (2 * i) % 24 && cbor_get_int(h[i].value) == (2 * i + 1) % 24; }
+            if (!same) fail("C03", "roundtrip-tree-differs", S.ctx + ": a member of the decoded container differs from the input");
+            unsigned char* out = nullptr; size_t os = 0; sa_begin(FaultSpec()); size_t wr = cbor_serialize_alloc(it, &out, &os); sa_end();
+            if (!failed() && (wr != by.size() || !out || memcmp(out, by.data(), by.size()) != 0)) fail("C03", "serialization-differs-from-rfc8949", S.ctx + fmt(": re-serialising the decoded %llu-member container gives %zu bytes, input had %zu", (unsigned long long)n, wr, by.size()));
+            if (out) sa_client_free(out);
+          }
+          cbor_decref(&it);
+        }
+        stat_add("marathon_big_load"); roundtrips++; serial_checked_nontrivial++;
+      }
+      if (!failed() && sa_live_sig() != sig_before) fail("C04,C03,C12", "op-leaks-block", S.ctx + ": blocks remain after the marathon container was released");
+      sa_set_max_request(saved_max);
       break;
     }
     case OP_GETTERS: {
